@@ -176,7 +176,7 @@ def work(args):
 
 def exec_one(case):
     from . import cases
-    faulthandler.dump_traceback_later(300, exit=True)
+    faulthandler.dump_traceback_later(1800, exit=True)
     try:
         return cases.exec_case(case, _tmpdir())
     finally:
@@ -295,7 +295,7 @@ def _run_property(pid, tier, seed, budget_s, workers, scale, out):
     jobs = spec['jobs']
     cursor = {j: 0 for j in jobs}
     chunk = {'sim': 20, 'cluster_ops': 150, 'buffer_ops': 150, 'repro': 3, 'pause': 2, 'pause_sample': 6, 'units': 10, 'delaymodel': 100, 'taskdrv': 200}
-    timeout = {'sim': 120, 'repro': 300, 'pause': 600, 'pause_sample': 300, 'units': 300}
+    timeout = {'sim': 600, 'repro': 900, 'pause': 1800, 'pause_sample': 900, 'units': 900}    # backstop only (dead worker => exit 2)
     submitted = 0
     pending = set()
     broken = None
@@ -313,7 +313,7 @@ def _run_property(pid, tier, seed, budget_s, workers, scale, out):
                     if tier == 'quick':
                         n = max(1, min(n, int(total * j[2] / (workers * 2)) or 1))
                     n = min(n, total - submitted)
-                    f = pool.submit(work, (pid, j[0], j[1], seedbase, cursor[j], n, tier, timeout.get(j[0], 120)))
+                    f = pool.submit(work, (pid, j[0], j[1], seedbase, cursor[j], n, tier, timeout.get(j[0], 600)))
                     cursor[j] += n
                     submitted += n
                     pending.add(f)
@@ -387,18 +387,27 @@ def _run_property(pid, tier, seed, budget_s, workers, scale, out):
     # ------------------------------------------------ confirm replays in a fresh interpreter
     confirmed = []
     unconfirmed = []
+    slow = []
+    def _replay(path):
+        try:
+            return subprocess.run([sys.executable, os.path.join(VERIF, 'check'), pid, '--replay', path],
+                                  capture_output=True, text=True, timeout=1800)
+        except subprocess.TimeoutExpired as e:
+            return subprocess.CompletedProcess(e.cmd, 124, stdout='', stderr='replay timed out')
     for sig, path, n, x in reports:
-        r = subprocess.run([sys.executable, os.path.join(VERIF, 'check'), pid, '--replay', path],
-                           capture_output=True, text=True, timeout=900)
+        r = _replay(path)
         if r.returncode == 1 and 'VIOLATION' in r.stdout:
             confirmed.append((sig, path, n, x))
         else:
             # minimised case does not replay: try the unminimised one
             path2 = write_replay(pid, sig, x['case'], x['v']['msg'], seed, x['seed'], 0)
-            r2 = subprocess.run([sys.executable, os.path.join(VERIF, 'check'), pid, '--replay', path2],
-                                capture_output=True, text=True, timeout=900)
+            r2 = _replay(path2)
             if r2.returncode == 1 and 'VIOLATION' in r2.stdout:
                 confirmed.append((sig, path2, n, x))
+            elif sig[1] == 'hang':
+                # a wall-clock verdict that does not reproduce in a quiet process was a slow run on a loaded
+                # machine, not a hang: neither a violation nor a harness error
+                slow.append((sig, path2, n))
             else:
                 unconfirmed.append((sig, path2, n, x, (r2.stdout + r2.stderr)[-400:]))
     wall = time.time() - t0
@@ -418,7 +427,7 @@ def _run_property(pid, tier, seed, budget_s, workers, scale, out):
             'run_outcomes': dict(agg['status']), 'per_job': agg['per_job'],
             'components': COMPONENTS, 'known_findings_hit': dict(known_hit), 'masked_by_known_finding': masked,
             'violations_of_other_properties_seen': dict(agg['other']),
-            'workers': workers, 'exhaustive': False,
+            'workers': workers, 'exhaustive': False, 'slow_runs_not_hangs': len(slow),
             'replays': [p for _, p, _, _ in confirmed],
         },
         'assumptions': [
